@@ -6,8 +6,10 @@ Mirrors the Go code function by function:
   ReleaseBlockMemory   -> release
   ReleasePeerMemory    -> releasePeer
   processPendingAllocations / processNextPendingAllocationForPeer -> processPending
+                           (= iteration of `loopStep`, one pass of the `for` loop)
   makePeerStatusCompare -> PeerSt.lt   (the priority queue is modelled as "peek returns
-                           a comparator-minimal element"; see `pickMin`)
+                           a comparator-minimal element": every function that uses Peek takes a
+                           `pick : Pick` argument; the executable instance is `pickMin`)
   Stats / AllocatedForPeer -> stats / allocatedFor
 
 uint64 arithmetic: every `+` that can wrap in Go goes through `add64`.
@@ -81,22 +83,30 @@ def PeerSt.lt (maxPeer : Nat) (a b : PeerSt) : Bool :=
     else if !fits b.total hb.amount maxPeer then true
     else decide (ha.idx < hb.idx)
 
-/-- Peek: a comparator-minimal element (first minimal in list order). -/
-def pickMin (maxPeer : Nat) : List PeerSt → Option PeerSt
-  | [] => none
-  | a :: rest =>
+/-- The priority queue's `Peek`, abstractly: any function from (maxPeer, peers) to a peer.
+    The proofs only assume `Admissible` (GSProofs/Lemmas/AllocatorBasic.lean): it returns `none`
+    only on the empty list, and otherwise a member that no other member sorts strictly before. -/
+abbrev Pick := Nat → List PeerSt → Option PeerSt
+
+/-- Executable `Peek`: a comparator-minimal element (first minimal in list order). -/
+def pickMin : Pick
+  | _, [] => none
+  | maxPeer, a :: rest =>
     match pickMin maxPeer rest with
     | none => some a
     | some b => if PeerSt.lt maxPeer b a then some b else some a
 
+/-- the `status, ok := a.peerStatuses[p]; if !ok { ... }` prologue of AllocateBlockMemory. -/
+def getOrNew (ps : List PeerSt) (p : Nat) : PeerSt × List PeerSt :=
+  match findPeer ps p with
+  | some st => (st, ps)
+  | none =>
+    let st : PeerSt := { id := p, total := 0, pending := [] }
+    (st, ps ++ [st])
+
 def alloc (s : State) (p amount ticket : Nat) : State × List Event :=
-  let (st, peers) :=
-    match findPeer s.peers p with
-    | some st => (st, s.peers)
-    | none =>
-      let st : PeerSt := { id := p, total := 0, pending := [] }
-      (st, s.peers ++ [st])
-  if fits s.total amount s.maxTotal ∧ fits st.total amount s.maxPeer ∧ st.pending = [] then
+  let (st, peers) := getOrNew s.peers p
+  if fits s.total amount s.maxTotal && fits st.total amount s.maxPeer && st.pending.isEmpty then
     let st' := { st with total := add64 st.total amount }
     ({ s with total := add64 s.total amount, peers := setPeer peers st' },
      [Event.granted p ticket amount])
@@ -104,53 +114,75 @@ def alloc (s : State) (p amount ticket : Nat) : State × List Event :=
     let st' := { st with pending := st.pending ++ [{ amount, idx := s.nextIdx, ticket }] }
     ({ s with nextIdx := s.nextIdx + 1, peers := setPeer peers st' }, [])
 
+/-- One iteration of the `for` loop of processPendingAllocations (with
+    processNextPendingAllocationForPeer inlined). `none` = the loop returns / its condition fails. -/
+def loopStep (pick : Pick) (s : State) : Option (State × List Event) :=
+  match pick s.maxPeer s.peers with
+  | none => none
+  | some np =>
+    match np.pending with
+    | h :: rest =>
+      if !fits s.total h.amount s.maxTotal then none
+      else if !fits np.total h.amount s.maxPeer then none
+      else
+        let np' := { np with total := add64 np.total h.amount, pending := rest }
+        some ({ s with total := add64 s.total h.amount, peers := setPeer s.peers np' },
+              [Event.granted np.id h.ticket h.amount])
+    | [] =>
+      if np.total > 0 then none
+      else some ({ s with peers := erasePeer s.peers np.id }, [])
+
 /-- processPendingAllocations, with explicit fuel. -/
-def processPendingFuel : Nat → State → State × List Event
+def processPendingFuel (pick : Pick) : Nat → State → State × List Event
   | 0, s => (s, [])
   | fuel + 1, s =>
-    match pickMin s.maxPeer s.peers with
+    match loopStep pick s with
     | none => (s, [])
-    | some np =>
-      match np.pending with
-      | h :: rest =>
-        if !fits s.total h.amount s.maxTotal then (s, [])
-        else if !fits np.total h.amount s.maxPeer then (s, [])
-        else
-          let np' := { np with total := add64 np.total h.amount, pending := rest }
-          let s' := { s with total := add64 s.total h.amount, peers := setPeer s.peers np' }
-          let (s'', evs) := processPendingFuel fuel s'
-          (s'', Event.granted np.id h.ticket h.amount :: evs)
-      | [] =>
-        if np.total > 0 then (s, [])
-        else processPendingFuel fuel { s with peers := erasePeer s.peers np.id }
+    | some (s', evs) =>
+      let r := processPendingFuel pick fuel s'
+      (r.1, evs ++ r.2)
 
 def pendingCount (ps : List PeerSt) : Nat := (ps.map (·.pending.length)).sum
 
-/-- every iteration either grants one pending allocation or removes one peer. -/
+/-- every iteration either grants one pending allocation or removes one peer
+    (sufficiency is proved: `GS.Alloc.processPending_rec`). -/
 def fuelFor (s : State) : Nat := pendingCount s.peers + s.peers.length + 1
 
-def processPending (s : State) : State × List Event := processPendingFuel (fuelFor s) s
+def processPending (pick : Pick) (s : State) : State × List Event :=
+  processPendingFuel pick (fuelFor s) s
 
-def release (s : State) (p amount : Nat) : State × List Event :=
+/-- ReleaseBlockMemory up to (excluding) the call of processPendingAllocations. -/
+def releaseCore (s : State) (p amount : Nat) : Option (State × Event) :=
   match findPeer s.peers p with
-  | none => (s, [Event.errNoPeer])
+  | none => none
   | some st =>
     let actual := if st.total ≥ amount then amount else st.total
     let st' := { st with total := st.total - actual }
     let total' := if s.total ≥ actual then s.total - actual else 0
-    let s1 := { s with total := total', peers := setPeer s.peers st' }
-    let (s2, evs) := processPending s1
-    (s2, Event.released p actual :: evs)
+    some ({ s with total := total', peers := setPeer s.peers st' }, Event.released p actual)
 
-def releasePeer (s : State) (p : Nat) : State × List Event :=
-  match findPeer s.peers p with
+def release (pick : Pick) (s : State) (p amount : Nat) : State × List Event :=
+  match releaseCore s p amount with
   | none => (s, [Event.errNoPeer])
+  | some (s1, ev) =>
+    let r := processPending pick s1
+    (r.1, ev :: r.2)
+
+/-- ReleasePeerMemory up to (excluding) the call of processPendingAllocations. -/
+def releasePeerCore (s : State) (p : Nat) : Option (State × List Event) :=
+  match findPeer s.peers p with
+  | none => none
   | some st =>
     let fails := st.pending.map fun pa => Event.failed p pa.ticket
     let total' := if s.total ≥ st.total then s.total - st.total else 0
-    let s1 := { s with total := total', peers := erasePeer s.peers p }
-    let (s2, evs) := processPending s1
-    (s2, Event.released p st.total :: fails ++ evs)
+    some ({ s with total := total', peers := erasePeer s.peers p }, Event.released p st.total :: fails)
+
+def releasePeer (pick : Pick) (s : State) (p : Nat) : State × List Event :=
+  match releasePeerCore s p with
+  | none => (s, [Event.errNoPeer])
+  | some (s1, evs) =>
+    let r := processPending pick s1
+    (r.1, evs ++ r.2)
 
 structure Stats where
   totalAllocated : Nat
@@ -172,17 +204,23 @@ inductive Op where
   | releasePeer (p : Nat)
 deriving Repr, DecidableEq
 
-def step (s : State) : Op → State × List Event
+def step (pick : Pick) (s : State) : Op → State × List Event
   | .alloc p a t => alloc s p a t
-  | .release p a => release s p a
-  | .releasePeer p => releasePeer s p
+  | .release p a => release pick s p a
+  | .releasePeer p => releasePeer pick s p
 
 /-- run a whole history, collecting events. -/
-def run (s : State) : List Op → State × List Event
+def run (pick : Pick) (s : State) : List Op → State × List Event
   | [] => (s, [])
   | op :: ops =>
-    let (s1, e1) := step s op
-    let (s2, e2) := run s1 ops
-    (s2, e1 ++ e2)
+    let r1 := step pick s op
+    let r2 := run pick r1.1 ops
+    (r2.1, r1.2 ++ r2.2)
+
+/-- the pending list of peer `p` (empty if the peer has no entry). -/
+def pendingOf (s : State) (p : Nat) : List Pending :=
+  match findPeer s.peers p with
+  | some st => st.pending
+  | none => []
 
 end GS.Alloc
